@@ -46,6 +46,7 @@ var (
 	results     map[*crlreader.CRLReadResult]*modelCRL
 	certIssuer  map[*x509.Certificate]string
 	certKey     map[*x509.Certificate]int // CA certificates and the key they carry (keyed verification)
+	links       map[string]string         // symbolic links in the file system (path -> current target)
 	loadCalls   int
 	verifyCalls int
 	readCalls   int
@@ -152,7 +153,11 @@ func modelDownload(l *crlloader.URLLoader, filePath string) error {
 
 func modelCopyFile(l *crlloader.FileLoader, filePath string) error {
 	loadCalls++
-	s := servers[l.FileName]
+	name := l.FileName
+	if t, ok := links[name]; ok {
+		name = t // opening a symbolic link opens what it points to NOW
+	}
+	s := servers[name]
 	if s == nil || !s.up {
 		return verifrt.NewError("no such file")
 	}
@@ -206,6 +211,13 @@ func installWorld() {
 	results = map[*crlreader.CRLReadResult]*modelCRL{}
 	certIssuer = map[*x509.Certificate]string{}
 	certKey = map[*x509.Certificate]int{}
+	links = map[string]string{}
+	verifrt.OverrideIfPresent("path/filepath.EvalSymlinks", func(p string) (string, error) {
+		if t, ok := links[p]; ok {
+			return t, nil
+		}
+		return p, nil
+	})
 	loadCalls, verifyCalls, readCalls = 0, 0, 0
 	sc := &x509.Certificate{}
 	signer = &core.CertificateChainEntry{RawCertificate: crlstore.VerifReg(sc), Certificate: sc}
